@@ -99,10 +99,10 @@ func genC10(seed uint64, run int, tier string) Scenario {
 	k := pick(r, 0, 0, 1, 1, 2, 3)
 	type stage struct{ kind, prompt string }
 	var round []stage
-	userPrompt := pick(r, "Username: ", "username:", "login: ", "Login:", host+" login: ", "User Access Verification Username: ",
+	userPrompt := pick(r, "Username: ", "username:", "login: ", "Login:", "USERNAME: ", host+" login: ", "User Access Verification Username: ",
 		// (as some devices do: a remark behind the prompt, on the same line)
 		"Username: Kerberos:\tNo default realm defined for Kerberos!"+nl)
-	passPrompt := pick(r, "Password: ", "password:", "Password:")
+	passPrompt := pick(r, "Password: ", "password:", "Password:", "PASSWORD: ")
 	if sc.Auth == "telnet" {
 		switch r.IntN(6) {
 		case 0:
@@ -111,7 +111,8 @@ func genC10(seed uint64, run int, tier string) Scenario {
 			round = []stage{{"user", userPrompt}, {"pass", passPrompt}}
 		}
 	} else {
-		passPrompt = pick(r, sc.User+"@"+host+"'s password: ", "("+sc.User+"@"+host+") Password: ", "Password:")
+		passPrompt = pick(r, sc.User+"@"+host+"'s password: ", "("+sc.User+"@"+host+") Password: ", "Password:",
+			"("+strings.ToUpper(sc.User+"@"+host)+") PASSWORD: ", "PASSWORD:")
 		phrasePrompt := "Enter passphrase for key '/home/" + sc.User + "/.ssh/id_ed25519': "
 		switch r.IntN(3) {
 		case 0:
@@ -121,6 +122,11 @@ func genC10(seed uint64, run int, tier string) Scenario {
 			}
 		case 1:
 			round = []stage{{"phrase", phrasePrompt}, {"pass", passPrompt}}
+			if r.IntN(3) == 0 {
+				// the ssh client found an encrypted key nobody told us about: no passphrase is
+				// configured, the prompt gets an empty line (never the account's password)
+				sc.Passphrase = ""
+			}
 		default:
 			round = []stage{{"pass", passPrompt}}
 		}
@@ -177,6 +183,10 @@ func genC10(seed uint64, run int, tier string) Scenario {
 				"ssh: connect to host "+host+" port 22: No route to host",
 				"Unable to negotiate with 10.0.0.1 port 22: no matching cipher found. Their offer: aes128-cbc,3des-cbc",
 				"Unable to negotiate with 10.0.0.1 port 22: no matching key exchange method found. Their offer: diffie-hellman-group1-sha1",
+				"Unable to negotiate with 10.0.0.1 port 22: no matching host key type found. Their offer: ssh-dss",
+				"Unable to negotiate with 10.0.0.1 port 22: no matching MAC found. Their offer: hmac-md5,hmac-sha1-96",
+				"Unable to negotiate with 10.0.0.1 port 22: no matching compression method found. Their offer: zlib",
+				"ssh: connect to host "+host+" port 22: Operation timed out",
 				"/etc/ssh/ssh_config: line 3: Bad configuration option: foobar",
 				"ssh: Could not resolve hostname "+host+": Name or service not known",
 				sc.User+"@"+host+": Permission denied (publickey,password).",
